@@ -208,6 +208,10 @@ DurLawsClause(m, ev) ==
      ELSE IF ev.cmp[3] /\ ev.cmp[5] THEN "<-and->"
      ELSE IF ev.cmp[4] # (ev.cmp[3] \/ ~ev.cmp[5]) \/ ev.cmp[6] # (ev.cmp[5] \/ ~ev.cmp[3]) THEN "<=/>=-inconsistent"
      ELSE IF ~Same(ev.tod, a) \/ ev.tod.wk THEN "to_days"
+     \* accessors: is_exact, get_seconds (exact length; rough length for nominal durations), get_days_and_seconds (rough, 0 <= s < 86400)
+     ELSE IF ev.isexact # DurExact(a) THEN "is_exact"
+     ELSE IF ~Near3(ev.gs, IF DurExact(a) THEN a.len ELSE DurRough(m, a), IF fr THEN 2 ELSE 0) THEN "get_seconds"
+     ELSE IF ~a.wk /\ ~(Near3(ev.das, DurRough(m, a), IF fr THEN 2 ELSE 0) /\ ev.dasnorm) THEN "get_days_and_seconds"
      \* every value computed along the way: equal durations hash equally (vals[k] = <<projection, hash id>>)
      ELSE IF ~fr /\ \E i, j \in 1..Len(ev.vals) : DurEq(ev.vals[i][1], ev.vals[j][1]) /\ ev.vals[i][2] # ev.vals[j][2] THEN "equal-values-hash-differently"
      ELSE "ok"
